@@ -35,6 +35,53 @@ func VerifResolve(t reflect.Type) (s string, err error) {
 	return sb.String(), nil
 }
 
+// VerifDesc prints what the once-per-type computation of desc.go makes of a struct type: per
+// field (id, can-skip-if-nil, can-skip-if-default, nocopy, up-front encoded size), the required
+// ids, and what GetField answers for the probed ids (-1: none, otherwise the id of the field found).
+func VerifDesc(t reflect.Type, probes []int) (s string, err error) {
+	defer func() {
+		if r := recover(); r != nil {
+			s, err = "", fmt.Errorf("panic: %v", r)
+		}
+	}()
+	if t.Kind() == reflect.Ptr {
+		t = t.Elem()
+	}
+	sdsmu.Lock()
+	sd, err := newStructDescAndPrefetch(t)
+	if err != nil {
+		rollbackPending()
+		sdsmu.Unlock()
+		return "", err
+	}
+	commitPending()
+	sdsmu.Unlock()
+	b2i := func(b bool) int {
+		if b {
+			return 1
+		}
+		return 0
+	}
+	var sb strings.Builder
+	for _, f := range sd.fields {
+		fmt.Fprintf(&sb, "(f %d %d %d %d %d)", f.ID, b2i(f.CanSkipEncodeIfNil), b2i(f.CanSkipIfDefault), b2i(f.NoCopy), f.EncodedSize())
+	}
+	sb.WriteString("(req")
+	for _, id := range sd.requiredFieldIDs {
+		fmt.Fprintf(&sb, " %d", id)
+	}
+	sb.WriteString(")(get")
+	for _, p := range probes {
+		if f := sd.GetField(uint16(p)); f != nil {
+			fmt.Fprintf(&sb, " %d", f.ID)
+		} else {
+			sb.WriteString(" -1")
+		}
+	}
+	fmt.Fprintf(&sb, ")(holder %d)", b2i(sd.hasUnknownFields))
+	return sb.String(), nil
+}
+
 // VerifSpan runs a sequence of (size, align) requests on a fresh span and
 // reports, per request, the ordinal of the block it was served from, the
 // offset inside that block, and the block size.
